@@ -158,7 +158,11 @@ def run_front(specs, tag):
     for i, s in enumerate(specs):
         with open(os.path.join(d, "%05d.x" % i), "w") as f:
             f.write(s)
-    r = sh([exe, d], timeout=1200)
+    # exit status 3: the watchdog recorded a time-out for one specification; go on with the rest
+    for _ in range(200):
+        r = sh([exe, d], timeout=1800)
+        if r.returncode != 3:
+            break
     if r.returncode != 0:
         raise TieBroken("front harness failed:\n" + r.stdout[-3000:])
     header = open(os.path.join(REPO, "src/header.rs")).read() + "\n"
@@ -166,6 +170,15 @@ def run_front(specs, tag):
     for i, s in enumerate(specs):
         p = os.path.join(d, "%05d.json" % i)
         j = json.load(open(p))
+        if j.get("timeout"):
+            # a library call that does not return within the watchdog's limit: reported like a
+            # panic whose site is the stage that hung
+            hung = {"outcome": "panic", "site": "TIMEOUT:" + j["stage"], "msg": "no result within 20 s", "file": "?", "line": 0}
+            j = {"tree": None, "ast": dict(hung), "gen_default": dict(hung), "gen_clone": dict(hung), "shared_same": True, "timed_out": True}
+            j["text"] = s
+            j["index"] = i
+            out.append(j)
+            continue
         j["text"] = s
         j["index"] = i
         for key in ("default", "clone"):
